@@ -475,6 +475,13 @@ def run_shard(ctx):
             huge_stop(ctx, tmpdir)
         if ctx.shard == 9:
             unencodable_stop(ctx, tmpdir)
+        if ctx.shard in (3, 12) or ctx.tier == "thorough":
+            # stops in streams whose blocks look like internal messages (the text "STOP_PROCESSING" as 15 bytes of audio)
+            from . import c13 as C13
+
+            for case_, data_, res_ in C13.sentinel_blocks(ctx, tmpdir, with_stop=True):
+                ctx.count("stops_in_streams_with_blocks_that_look_like_internal_messages")
+                check_run(ctx, case_, data_, res_, tmpdir)
         systematic(ctx, conf, tmpdir)
         enumerate_stops(ctx, conf, tmpdir)
         rng = ctx.rng("lines")
@@ -552,7 +559,7 @@ def inconclusive(merged, tier):
     c = merged["counters"]
     need = ["scheduled_runs", "stop_points_enumerated", "streams_with_every_stop_point_covered", "stops_before_stream_end",
             "stops_with_a_read_in_flight", "observer_logs_checked", "saved_streams_checked", "joiner_files_checked",
-            "line_mode_runs", "instruction_mode_runs", "all_module_line_mode_runs", "sigint_children_checked", "timeouts_fired", "systematic_schedules", "systematic_pipelines_fully_enumerated", "stops_after_an_injected_source_fault", "stops_over_an_overlapping_reader", "lagging_saver_runs", "huge_stop_runs", "unencodable_stop_runs"]
+            "line_mode_runs", "instruction_mode_runs", "all_module_line_mode_runs", "sigint_children_checked", "timeouts_fired", "systematic_schedules", "systematic_pipelines_fully_enumerated", "stops_after_an_injected_source_fault", "stops_over_an_overlapping_reader", "stops_in_streams_with_blocks_that_look_like_internal_messages", "lagging_saver_runs", "huge_stop_runs", "unencodable_stop_runs"]
     out = [f"monitor never observed {k}" for k in need if c.get(k, 0) == 0]
     if c.get("inconclusive_runs", 0) > max(3, c.get("scheduled_runs", 0) // 50):
         out.append(f"{c['inconclusive_runs']} runs hit a step/wall cap or the sigint driver's watchdog")
